@@ -107,7 +107,14 @@ def rule_janus_update_form(ctx):
     samples = []
     for fname, allowed_src, kind in (('drift', ('vx', 'vy', 'vz'), 'p'), ('kick', ('ax', 'ay', 'az'), 'v')):
         fn = tu.func(fname)
-        stmts = [e for e in walk(cfront.body(fn)) if cfront.is_assign(e)]
+
+        def is_int_state(m_):
+            """a member access whose object is a struct reb_particle_int (whatever the array or pointer is called)"""
+            return m_.get('kind') == 'MemberExpr' and 'reb_particle_int' in qtype(strip(m_['inner'][0], casts=True))
+        dparams = [p_['name'] for p_ in cfront.params(fn) if qtype(p_).replace('const', '').strip() == 'double']
+        anchor(dparams, '%s takes the step as a double parameter' % fname)
+        dtname = dparams[0]
+        stmts = [e for e in walk(cfront.body(fn)) if cfront.is_assign(e) and strip(e['inner'][0]).get('kind') == 'MemberExpr']
         anchor(len(stmts) == 3, '%s has three update statements' % fname)
         for e in stmts:
             n += 1
@@ -116,20 +123,21 @@ def rule_janus_update_form(ctx):
             key = 'janus:%s:%s' % (fname, lv.split('.')[-1])
             if e['opcode'] != '+=':
                 ctx.report('R10.3', key + ':op', where, 'update uses %s, not += : the map is not an additive shear' % e['opcode'])
-            if 'p_int' not in lv:
+            if not is_int_state(strip(e['inner'][0])):
                 ctx.report('R10.3', key + ':target', where, 'update writes %s, not the integer state' % lv)
             rhs = strip(e['inner'][1])
             if rhs.get('kind') != 'CStyleCastExpr' or 'int' not in qtype(rhs).lower() and 'REB_PARTICLE_INT_TYPE' not in qtype(rhs):
                 ctx.report('R10.3', key + ':cast', where, 'increment is not a plain cast to the integer type (truncation is the odd function the scheme relies on)')
             ids = [render(x) for x in walk(rhs) if x.get('kind') in ('MemberExpr',)]
             names = [x['referencedDecl']['name'] for x in walk(rhs) if x.get('kind') == 'DeclRefExpr']
-            if names.count('dt') != 1:
+            if names.count(dtname) != 1:
                 ctx.report('R10.3', key + ':dt', where, 'increment contains dt %d times, not exactly once (it must be odd in dt)' % names.count('dt'))
             if any(m == lv for m in ids):
                 ctx.report('R10.3', key + ':self', where, 'increment reads the coordinate it updates: the map is not a shear')
             if fname == 'drift':
-                bad = [m for m in ids if m.endswith(('.vx', '.vy', '.vz')) and 'p_int' not in m]
-                if bad or not any('p_int' in m for m in ids):
+                mnodes = [x for x in walk(rhs) if x.get('kind') == 'MemberExpr']
+                bad = [render(x) for x in mnodes if x['name'] in ('vx', 'vy', 'vz') and not is_int_state(x)]
+                if bad or not any(is_int_state(x) for x in mnodes):
                     ctx.report('R10.3', key + ':source', where, 'drift reads %s instead of the integer velocities: the map depends on rounded doubles' % (bad or ids))
             comp = lv.split('.')[-1]
             want = {'x': 'vx', 'y': 'vy', 'z': 'vz', 'vx': 'ax', 'vy': 'ay', 'vz': 'az'}[comp]
